@@ -310,6 +310,17 @@ func Run(r *ev.Run) {
 			s5.Key = kk // client seals with b.AEAD although kk's config does not list it
 			jobs = append(jobs, job{mutation{b, "consistent-hello-with-unlisted-suite", int(b.AEAD)}, s5.Build().Outer.Record(), echx.Keys(kk)})
 		}
+		// ... and with a suite whose KDF and AEAD each occur in the config's list, but not TOGETHER: the list is a list of pairs
+		{
+			otherAEAD := uint16(1)
+			if b.AEAD == 1 {
+				otherAEAD = 3
+			}
+			kk := echx.NewKey("c02-cross", 42, []tlsref.Suite{{KDF: 1, AEAD: otherAEAD}, {KDF: 2, AEAD: b.AEAD}}, "public.example")
+			s6 := s
+			s6.Key = kk // the client names (KDF 1, b.AEAD): KDF 1 is listed (with another AEAD), b.AEAD is listed (with another KDF)
+			jobs = append(jobs, job{mutation{b, "consistent-hello-with-unlisted-suite-cross-pair", int(b.AEAD)}, s6.Build().Outer.Record(), echx.Keys(kk)})
+		}
 		// degenerate encapsulated keys: low-order X25519 points make the DH output predictable (all zero / rejected);
 		// forge the payload from the public config only, for both predictions of the receiver's DH value
 		for pi, pt := range lowOrderPoints {
